@@ -82,6 +82,9 @@ func step(c *Chain, h *histWriter, o Op, mon *Monitors) string {
 	if o.Tk2.Forge != 0 {
 		enc += fmt.Sprintf(" #f2=%d", o.Tk2.Forge)
 	}
+	if o.Dry != "" {
+		enc += " #dry=" + o.Dry
+	}
 	h.line("OP " + enc)
 	short := res
 	if strings.HasPrefix(res, "panic") {
